@@ -14,7 +14,7 @@ cd $WT || exit 2
 git checkout -q -- . ; rm -f $CRATE/tests/seeded_demo.rs
 mkdir -p $CRATE/tests && cp $S/demo.rs $CRATE/tests/seeded_demo.rs
 PKG=$(cd $CRATE && grep -m1 '^name' Cargo.toml | sed 's/.*"\(.*\)".*/\1/')
-run_demo() { cargo test --offline -p $PKG --test seeded_demo 2>&1 | grep -E "^test result|error(\[|:)" | head -3; }
+run_demo() { cargo test --offline -p $PKG --test seeded_demo 2>&1 | grep -E "^test result|error(\[|:)|overflowed its stack" | head -3; }
 echo "--- clean tree: demo"; CLEAN=$(run_demo); echo "$CLEAN"
 git apply $S/patch.diff || { echo "PATCH DOES NOT APPLY"; rm -f $CRATE/tests/seeded_demo.rs; exit 2; }
 echo "--- patched: demo"; PATCHED=$(run_demo); echo "$PATCHED"
@@ -23,7 +23,7 @@ echo "--- patched: existing suite"; SUITE=$(cargo test --workspace --offline 2>&
 git checkout -q -- .
 clean_ok=false; patched_fail=false; suite_ok=false
 echo "$CLEAN" | grep -q "test result: ok" && clean_ok=true
-echo "$PATCHED" | grep -q "FAILED" && patched_fail=true
+echo "$PATCHED" | grep -q "FAILED\|test failed" && patched_fail=true
 [ -z "$SUITE" ] && suite_ok=true
 echo "confirmed: demo_passes_clean=$clean_ok demo_fails_patched=$patched_fail suite_passes_patched=$suite_ok"
 # our checks against a scratch copy of the repository with the patch (never /repo itself while background runs use it)
@@ -38,7 +38,7 @@ for C in $ID $EXTRA; do
   DET="$DET{\"check\":\"$C\",\"exit\":$rc,\"signatures\":\"$sig\"},"
 done
 cd $SCR && git checkout -q -- .
-D=/verif/seeded/$ID-$I; mkdir -p $D
+D=/verif/seeded/$ID-${SEED_LABEL:-}$I; mkdir -p $D
 cp $S/patch.diff $S/demo.rs $D/
 python3 - <<PY
 import json
